@@ -5,7 +5,8 @@ Checks: (1) patch applies on clean HEAD, (2) repository suite passes with it, (3
 (4) the demonstration passes without it."""
 import json, os, re, shutil, subprocess, sys
 prop, name = sys.argv[1], sys.argv[2]
-wt = f"/tmp/wt/{prop}"; out = f"/tmp/wt/out-{prop}"
+BASE = os.environ.get("WTBASE", "/tmp/wt")
+wt = f"{BASE}/{prop}"; out = f"{BASE}/out-{prop}"
 diff = f"{out}/{name}.diff"
 num = re.sub(r"\D", "", name)
 demo = sys.argv[3] if len(sys.argv) > 3 and not sys.argv[3].startswith("--") else (f"{out}/demo_{num}.rs" if not name.startswith("extra") else f"{out}/extra_demo_{num}.rs")
@@ -39,10 +40,13 @@ sid = f"{prop}-{name.replace('extra_', 'x')}"
 d = f"/verif/seeded/{sid}"; os.makedirs(d, exist_ok=True)
 shutil.copy(diff, f"{d}/patch.diff"); shutil.copy(demo, f"{d}/demo.rs")
 notes = open(f"{out}/notes.md").read() if os.path.exists(f"{out}/notes.md") else ""
-meta = {"id": sid, "breaks_property": prop.rstrip("bcd"), "origin": "independent sub-agent given only the property text and a scratch worktree",
+breaks = next((a.split("=",1)[1] for a in sys.argv if a.startswith("--prop=")), prop.rstrip("bcd"))
+meta = {"id": sid, "breaks_property": breaks, "origin": "independent sub-agent given only the property text and a scratch worktree",
         "confirmed": {"suite_with_change": "all test binaries ok, 39/39 in tests/tests.rs", "demo_with_change": "fails", "demo_without_change": "rejected by the compiler (the demonstration is a program that must not compile)" if compile_fail_demo else "passes",
                       "commands": ["git apply patch.diff", "cargo test --workspace --no-fail-fast --offline", "cargo test --offline --test demo_x (with and without the change)"]},
         "needs_to_manifest": "", "detected_by": {}}
+if feat:
+    meta["demo_features"] = feat
 if os.path.exists(f"{d}/meta.json"):
     old = json.load(open(f"{d}/meta.json")); meta["needs_to_manifest"] = old.get("needs_to_manifest", ""); meta["detected_by"] = old.get("detected_by", {})
 json.dump(meta, open(f"{d}/meta.json", "w"), indent=1)
